@@ -130,7 +130,12 @@ def mkOracle (w : World) : Oracle := fun k call =>
        if failNow || t.head? == some bang then .fail
        else match findTy opt w.decls with
          | some .int => .int t.length
-         | some .float => .flt (ofDecimal false t.length 0).val.toBits
+         | some .float =>
+           -- "huge…": the callback answers infinity; "erange…": it answers 1.0 and leaves errno = ERANGE behind.  What a
+           -- callback produced is what is stored: the library's own range / not-a-number tests are about text IT converts
+           if t.take 4 == [104, 117, 103, 101] then .flt 0x7ff0000000000000
+           else if t.take 6 == [101, 114, 97, 110, 103, 101] then .flt 0x3ff0000000000000
+           else .flt (ofDecimal false t.length 0).val.toBits
          | some .bool => .bool (t.length % 2 == 1)
          | some .str => .str (some ([60] ++ t ++ [62]))
          | some .ptr => .ptr (if t.isEmpty then none else some t)
